@@ -2766,10 +2766,14 @@ class FuncMul(ValueFunc):
                 )
 
         if a.isList() and b.isInt():
-            result = ValueList()
-            for i in range(b.value):
-                result.addItems(a.value)
-            return result
+            try:
+                return ValueList().addItems(a.value * b.value)
+            except (OverflowError, MemoryError):
+                raise CklRuntimeError(
+                    ValueString("ERROR"),
+                    "Cannot repeat a list " + str(b.value) + " times",
+                    pos,
+                )
 
         if a.isInt() and b.isInt():
             return ValueInt(a.value * b.value)
